@@ -163,6 +163,43 @@ def _fmt_parts(t):
     return None
 
 
+TEXT_TY = r"::<&*(str|std::string::String|std::borrow::Cow<'_, str>|char)>$"
+
+
+def unescaped_label_texts(ex, p, sl):
+    """Free-text pieces of a label (a `set_label` call event) that do not go through one of std's escapes.  The DOT writer only
+    puts quotes around a label, so `"` and `\` in it must have been escaped by the caller.  A piece is free text when it is
+    displayed with a text type (&str, String, char: the type argument of its fmt::Argument constructor, i.e. resolved by the
+    compiler) and its value is not a constant."""
+    parts = text_pieces(argval(sl, 1), ex, p)
+    if parts is None:
+        return []
+    bad = []
+    for v in parts[1]:
+        if S.mentions(v, lambda x: x[0] == "app" and re.search(r"::escape_(debug|default)$", str(x[1])) is not None):
+            continue
+        if not S.mentions(v, lambda x: x[0] in ("sym", "field", "heap", "local")):
+            continue       # a constant
+        ty = None
+        for e_ in p.events:
+            if e_[0] == "call" and re.search(r"fmt::rt::Argument::<'_>::new_(display|debug)::<", e_[2]) and e_[3]:
+                a_ = ex.deref_val(p, e_[3][0]) if e_[3][0][0] == "ref" else e_[3][0]
+                if a_ == v or S.fstr(a_).lstrip("&*") == S.fstr(v).lstrip("&*"):
+                    ty = e_[2]
+        if ty is not None and re.search(TEXT_TY, ty):
+            bad.append(S.fstr(v)[:80])
+    return bad
+
+
+def nolook_path(p, item):
+    from .common import cond_variant
+    for c_, o_ in p.conds:
+        cv = cond_variant(c_, o_)
+        if cv is not None and cv[1] == "None" and "get_character_class" in S.fstr(cv[0]) and (item + ".0") in S.fstr(cv[0]):
+            return True
+    return False
+
+
 def analyze(ctx, want):
     F = ctx.facts
 
@@ -188,6 +225,9 @@ def analyze(ctx, want):
         nn = p.calls(r"Scope::<.*>::node_named")
         ed = p.calls(r"Scope::<.*>::edge::")
         sl = p.calls(r"::set_label$")
+        for sl_ in sl:
+            bad_ = unescaped_label_texts(ex, p, sl_)
+            ob("C18.c", "label-text-is-escaped:render_compiled_dfa", not bad_, "unescaped free text in a label: %s" % bad_ if bad_ else "every free-text piece of the label goes through escape_default / escape_debug", rd.loc(sl_[1]))
         if len(nn) == 2 and not any(e_[0] == "call" and re.search(r"iter::Iterator>::next$", e_[2]) for e_ in p.events[:p.events.index(nn[0])]):
             # the start state drawn before the loop and the first iteration of the loop on one path: the first node is checked on
             # the paths that stop before the loop is entered ... or here, if there is no such path
@@ -297,6 +337,11 @@ def analyze(ctx, want):
                         nolook = [c_ for c_, o_ in p.conds if cond_variant(c_, o_) is not None and cond_variant(c_, o_)[1] == "None" and "get_character_class" in S.fstr(cond_variant(c_, o_)[0]) and (do.group(1) + ".0") in S.fstr(cond_variant(c_, o_)[0])]
                         same = bool(nolook) and lab[1][0][0] in ("const", "app", "ref", "local", "deref") and not S.mentions(lab[1][0], lambda x: x[0] == "sym" and x[1].startswith("item@"))
                     ob("C18.b", "edge-label-is-the-class-of-the-same-transition", same and "C#" in lab[0], "label args %s" % [S.fstr(v)[:70] for v in lab[1]], rd.loc())
+                    if "get_character_class" in ccs and not nolook_path(p, do.group(1)):
+                        # the class text is free text (it may contain `"` and `\`), and the DOT writer only puts quotes around
+                        # a label: the text must go through one of std's escapes, which escape both characters
+                        esc = S.mentions(lab[1][0], lambda x: x[0] == "app" and re.search(r"::escape_(debug|default)$", str(x[1])) is not None)
+                        ob("C18.c", "edge-label-class-text-is-escaped", bool(esc), "class text in the label: %s" % ccs[:160], rd.loc())
                 else:
                     ob("C18.b", "edge-label-present", False, "edge without a two-part label", rd.loc())
             ob("C18.b", "edge-endpoints-are-(state, target) of-the-same-transition", bool(ok), "edge(%s, %s)" % ([S.fstr(v)[:30] for v in f1[1]] if f1 else None, [S.fstr(v)[:30] for v in f2[1]] if f2 else None), rd.loc(e[1]))
@@ -378,6 +423,10 @@ def analyze(ctx, want):
         ob("C18.b", "lookahead-polarity-label:%s" % ("Pos" if pol and pol[-1][1] else "Neg"), okp, "polarity label %s under is_positive=%s" % (S.fstr(lab[1][1])[:20] if lab and len(lab[1]) == 2 else None, pol[-1][1] if pol else None), cr.loc(c[1]))
         ob("C18.b", "lookahead-automaton-drawn-with-the-scanner-registry", S.fstr(reg).lstrip("&*") == "character_class_registry" and "cluster" in S.fstr(argval(c, 3)), "registry %s, scope %s" % (S.fstr(reg)[:40], S.fstr(argval(c, 3))[:40]), cr.loc(c[1]))
     staged_used = False
+    for p in paths:
+        for sl_ in p.calls(r"::set_label$"):
+            bad_ = unescaped_label_texts(ex, p, sl_)
+            ob("C18.c", "label-text-is-escaped:compiled_dfa_render", not bad_, "unescaped free text in a label: %s" % bad_ if bad_ else "every free-text piece of the label goes through escape_default / escape_debug", cr.loc(sl_[1]))
     for p in paths:
         rc = p.calls(r"dot::render_compiled_dfa$")
         for c in rc:
